@@ -206,3 +206,223 @@ package route
 //@   loop 0 invariant b.ASPath != nil && len(*b.ASPath) >= 1 && (*b.ASPath)[0].Type != types.ASSet && i >= 0
 //@   loop 0 invariant i >= 1 ==> len((*b.ASPath)[0].ASNs) >= 1 && (*b.ASPath)[0].ASNs[0] == asn
 //@   loop 0 invariant fit ==> spec_segsFit(b)
+
+// Property C34: converting a route to its API representation and back keeps
+// the prefix, the path type and every BGP attribute the API schema has a field
+// for; a hidden path is never reported as visible.
+//@ import netapi "github.com/bio-routing/bio-rd/net/api"
+//@ spec
+//@ func spec_sameIP(a *netapi.IP, ip *bnet.IP) bool {
+//@ 	return a != nil && a.Higher == ip.Higher() && a.Lower == ip.Lower() && (a.Version == netapi.IP_IPv4) == ip.IsIPv4()
+//@ }
+//@ func spec_sameLC(a *api.LargeCommunity, c types.LargeCommunity) bool {
+//@ 	return a != nil && a.GlobalAdministrator == c.GlobalAdministrator && a.DataPart1 == c.DataPart1 && a.DataPart2 == c.DataPart2
+//@ }
+//@ func spec_sameUA(a *api.UnknownPathAttribute, u types.UnknownPathAttribute) bool {
+//@ 	return a != nil && a.Optional == u.Optional && a.Transitive == u.Transitive && a.Partial == u.Partial && a.TypeCode == uint32(u.TypeCode) && verif_sameelems(a.Value, u.Value)
+//@ }
+//@ func spec_sameSeg(a *api.ASPathSegment, s types.ASPathSegment) bool {
+//@ 	return a != nil && a.AsSequence == (s.Type == types.ASSequence) && verif_sameelems(a.Asns, s.ASNs)
+//@ }
+//@ // a is the API form of the BGP path b: every attribute the API has a field for
+//@ func spec_bgpConv(a *api.BGPPath, b *BGPPath) bool {
+//@ 	if (a == nil) != (b == nil) {
+//@ 		return false
+//@ 	}
+//@ 	if b == nil {
+//@ 		return true
+//@ 	}
+//@ 	if a.PathIdentifier != b.PathIdentifier || a.BmpPostPolicy != b.BMPPostPolicy {
+//@ 		return false
+//@ 	}
+//@ 	if b.BGPPathA != nil {
+//@ 		x := b.BGPPathA
+//@ 		if a.LocalPref != x.LocalPref || a.Origin != uint32(x.Origin) || a.Med != x.MED || a.Ebgp != x.EBGP || a.BgpIdentifier != x.BGPIdentifier || a.OriginatorId != x.OriginatorID || a.OnlyToCustomer != x.OnlyToCustomer {
+//@ 			return false
+//@ 		}
+//@ 		if x.NextHop != nil && !spec_sameIP(a.NextHop, x.NextHop) {
+//@ 			return false
+//@ 		}
+//@ 		if x.Source != nil && !spec_sameIP(a.Source, x.Source) {
+//@ 			return false
+//@ 		}
+//@ 	}
+//@ 	if b.ASPath != nil && !(len(a.AsPath) == len(*b.ASPath) && verif_forall(0, len(*b.ASPath), func(k int) bool { return spec_sameSeg(a.AsPath[k], (*b.ASPath)[k]) })) {
+//@ 		return false
+//@ 	}
+//@ 	if b.ClusterList != nil && !verif_sameelems(a.ClusterList, *b.ClusterList) {
+//@ 		return false
+//@ 	}
+//@ 	if b.Communities != nil && !verif_sameelems(a.Communities, *b.Communities) {
+//@ 		return false
+//@ 	}
+//@ 	if b.LargeCommunities != nil && !(len(a.LargeCommunities) == len(*b.LargeCommunities) && verif_forall(0, len(*b.LargeCommunities), func(k int) bool { return spec_sameLC(a.LargeCommunities[k], (*b.LargeCommunities)[k]) })) {
+//@ 		return false
+//@ 	}
+//@ 	return len(a.UnknownAttributes) == len(b.UnknownAttributes) && verif_forall(0, len(b.UnknownAttributes), func(k int) bool { return spec_sameUA(a.UnknownAttributes[k], b.UnknownAttributes[k]) })
+//@ }
+//@ // pb can be converted (no nil members, values in range)
+//@ func spec_okAPIBGP(pb *api.BGPPath) bool {
+//@ 	return pb != nil && pb.NextHop != nil && pb.Source != nil &&
+//@ 		verif_forall(0, len(pb.AsPath), func(k int) bool { return pb.AsPath[k] != nil }) &&
+//@ 		verif_forall(0, len(pb.LargeCommunities), func(k int) bool { return pb.LargeCommunities[k] != nil }) &&
+//@ 		verif_forall(0, len(pb.UnknownAttributes), func(k int) bool { return pb.UnknownAttributes[k] != nil && pb.UnknownAttributes[k].TypeCode <= 255 })
+//@ }
+//@ // b is the BGP path the API form pb stands for
+//@ func spec_bgpFrom(pb *api.BGPPath, b *BGPPath) bool {
+//@ 	if b == nil || b.BGPPathA == nil || b.PathIdentifier != pb.PathIdentifier || b.BMPPostPolicy != pb.BmpPostPolicy {
+//@ 		return false
+//@ 	}
+//@ 	x := b.BGPPathA
+//@ 	if x.LocalPref != pb.LocalPref || uint32(x.Origin) != pb.Origin&255 || x.MED != pb.Med || x.EBGP != pb.Ebgp || x.BGPIdentifier != pb.BgpIdentifier || x.OriginatorID != pb.OriginatorId || x.OnlyToCustomer != pb.OnlyToCustomer {
+//@ 		return false
+//@ 	}
+//@ 	if x.NextHop == nil || !spec_sameIP(pb.NextHop, x.NextHop) || x.Source == nil || !spec_sameIP(pb.Source, x.Source) {
+//@ 		return false
+//@ 	}
+//@ 	if b.ASPath == nil || len(*b.ASPath) != len(pb.AsPath) || !verif_forall(0, len(pb.AsPath), func(k int) bool {
+//@ 		return ((*b.ASPath)[k].Type == types.ASSequence || (*b.ASPath)[k].Type == types.ASSet) && spec_sameSeg(pb.AsPath[k], (*b.ASPath)[k])
+//@ 	}) {
+//@ 		return false
+//@ 	}
+//@ 	if len(pb.Communities) > 0 && !(b.Communities != nil && verif_sameelems(*b.Communities, pb.Communities)) {
+//@ 		return false
+//@ 	}
+//@ 	if len(pb.Communities) == 0 && b.Communities != nil {
+//@ 		return false
+//@ 	}
+//@ 	if len(pb.ClusterList) > 0 && !(b.ClusterList != nil && verif_sameelems(*b.ClusterList, pb.ClusterList)) {
+//@ 		return false
+//@ 	}
+//@ 	if len(pb.ClusterList) == 0 && b.ClusterList != nil {
+//@ 		return false
+//@ 	}
+//@ 	if len(pb.LargeCommunities) > 0 && !(b.LargeCommunities != nil && len(*b.LargeCommunities) == len(pb.LargeCommunities) && verif_forall(0, len(pb.LargeCommunities), func(k int) bool { return spec_sameLC(pb.LargeCommunities[k], (*b.LargeCommunities)[k]) })) {
+//@ 		return false
+//@ 	}
+//@ 	if len(pb.LargeCommunities) == 0 && b.LargeCommunities != nil {
+//@ 		return false
+//@ 	}
+//@ 	return len(b.UnknownAttributes) == len(pb.UnknownAttributes) && verif_forall(0, len(pb.UnknownAttributes), func(k int) bool { return spec_sameUA(pb.UnknownAttributes[k], b.UnknownAttributes[k]) })
+//@ }
+//@ // a can be converted
+//@ func spec_okAPIPath(a *api.Path) bool {
+//@ 	return a != nil && (a.Type != api.Path_BGP || spec_okAPIBGP(a.BgpPath)) && (a.Type != api.Path_Static || (a.StaticPath != nil && a.StaticPath.NextHop != nil))
+//@ }
+//@ // p is the path the API form a stands for
+//@ func spec_pathFrom(a *api.Path, p *Path) bool {
+//@ 	return p != nil && (a.Type != api.Path_BGP || (p.Type == BGPPathType && spec_bgpFrom(a.BgpPath, p.BGPPath))) &&
+//@ 		(a.Type != api.Path_Static || (p.Type == StaticPathType && p.StaticPath != nil && p.StaticPath.NextHop != nil && spec_sameIP(a.StaticPath.NextHop, p.StaticPath.NextHop)))
+//@ }
+//@ // a is the API form of the path p
+//@ func spec_pathConv(a *api.Path, p *Path) bool {
+//@ 	return a != nil && a.TimeLearned == p.LTime && (p.Type != BGPPathType || a.Type == api.Path_BGP) && (p.Type != StaticPathType || a.Type == api.Path_Static) &&
+//@ 		(p.HiddenReason > HiddenReasonOTCMismatch || int32(a.HiddenReason) == int32(p.HiddenReason)) &&
+//@ 		spec_bgpConv(a.BgpPath, p.BGPPath) && (p.StaticPath == nil) == (a.StaticPath == nil) && (p.StaticPath == nil || spec_sameIP(a.StaticPath.NextHop, p.StaticPath.NextHop))
+//@ }
+//@ end
+
+//@ contract (*StaticPath).ToProto
+//@   props C34
+//@   nilrecv
+//@   requires s != nil ==> s.NextHop != nil
+//@   ensures (s == nil) == (result == nil)
+//@   ensures s != nil ==> verif_fresh(result) && spec_sameIP(result.NextHop, s.NextHop)
+//@   modifies nothing
+
+//@ contract StaticPathFromProtoStaticPath
+//@   props C34
+//@   requires pb != nil && pb.NextHop != nil
+//@   ensures result != nil && verif_fresh(result) && result.NextHop != nil && spec_sameIP(pb.NextHop, result.NextHop)
+//@   modifies nothing
+
+// The attribute block cache hands out a block equal to the one it is given.
+//@ contract (*BGPPathA).Dedup
+//@   props C34
+//@   trusted the cache returns the block itself or a cached block that was equal to it when cached; cached blocks are not modified afterwards (that is property C13)
+//@   requires b != nil
+//@   ensures result != nil && *result == *b
+//@   modifies nothing
+
+//@ contract (*BGPPath).ToProto
+//@   props C34
+//@   nilrecv
+//@   ensures (b == nil) == (result == nil)
+//@   ensures b != nil ==> verif_fresh(result) && result.PathIdentifier == b.PathIdentifier && result.BmpPostPolicy == b.BMPPostPolicy
+//@   ensures b != nil && b.BGPPathA != nil ==> result.LocalPref == b.BGPPathA.LocalPref && result.Origin == uint32(b.BGPPathA.Origin) && result.Med == b.BGPPathA.MED && result.Ebgp == b.BGPPathA.EBGP
+//@   ensures b != nil && b.BGPPathA != nil ==> result.BgpIdentifier == b.BGPPathA.BGPIdentifier && result.OriginatorId == b.BGPPathA.OriginatorID && result.OnlyToCustomer == b.BGPPathA.OnlyToCustomer
+//@   ensures b != nil && b.BGPPathA != nil && b.BGPPathA.NextHop != nil ==> spec_sameIP(result.NextHop, b.BGPPathA.NextHop)
+//@   ensures b != nil && b.BGPPathA != nil && b.BGPPathA.Source != nil ==> spec_sameIP(result.Source, b.BGPPathA.Source)
+//@   ensures b != nil && b.ASPath != nil ==> len(result.AsPath) == len(*b.ASPath) && forall(k, 0, len(*b.ASPath), spec_sameSeg(result.AsPath[k], (*b.ASPath)[k]))
+//@   ensures b != nil && b.ClusterList != nil ==> verif_sameelems(result.ClusterList, *b.ClusterList)
+//@   ensures b != nil && b.Communities != nil ==> verif_sameelems(result.Communities, *b.Communities)
+//@   ensures b != nil && b.LargeCommunities != nil ==> len(result.LargeCommunities) == len(*b.LargeCommunities) && forall(k, 0, len(*b.LargeCommunities), spec_sameLC(result.LargeCommunities[k], (*b.LargeCommunities)[k]))
+//@   ensures b != nil ==> len(result.UnknownAttributes) == len(b.UnknownAttributes) && forall(k, 0, len(b.UnknownAttributes), spec_sameUA(result.UnknownAttributes[k], b.UnknownAttributes[k]))
+//@   ensures spec_bgpConv(result, b)
+//@   modifies nothing
+//@   loop 0 vars a *api.BGPPath, rangeindex int
+//@   loop 0 invariant b.LargeCommunities != nil && len(a.LargeCommunities) == len(*b.LargeCommunities) && verif_freshslice(a.LargeCommunities)
+//@   loop 0 invariant forall(k, 0, rangeindex+1, spec_sameLC(a.LargeCommunities[k], (*b.LargeCommunities)[k]))
+//@   loop 1 vars a *api.BGPPath, rangeindex int
+//@   loop 1 invariant len(a.UnknownAttributes) == len(b.UnknownAttributes) && verif_freshslice(a.UnknownAttributes)
+//@   loop 1 invariant forall(k, 0, rangeindex+1, spec_sameUA(a.UnknownAttributes[k], b.UnknownAttributes[k]) && verif_fresh(a.UnknownAttributes[k]) && verif_freshslice(a.UnknownAttributes[k].Value))
+
+//@ contract BGPPathFromProtoBGPPath
+//@   props C34
+//@   requires pb != nil && pb.NextHop != nil && pb.Source != nil
+//@   requires forall(k, 0, len(pb.AsPath), pb.AsPath[k] != nil) && forall(k, 0, len(pb.LargeCommunities), pb.LargeCommunities[k] != nil) && forall(k, 0, len(pb.UnknownAttributes), pb.UnknownAttributes[k] != nil && pb.UnknownAttributes[k].TypeCode <= 255)
+//@   ensures result != nil && result.BGPPathA != nil && result.PathIdentifier == pb.PathIdentifier && result.BMPPostPolicy == pb.BmpPostPolicy
+//@   ensures result.BGPPathA.LocalPref == pb.LocalPref && uint32(result.BGPPathA.Origin) == pb.Origin&255 && result.BGPPathA.MED == pb.Med && result.BGPPathA.EBGP == pb.Ebgp
+//@   ensures result.BGPPathA.BGPIdentifier == pb.BgpIdentifier && result.BGPPathA.OriginatorID == pb.OriginatorId && result.BGPPathA.OnlyToCustomer == pb.OnlyToCustomer
+//@   ensures result.BGPPathA.NextHop != nil && spec_sameIP(pb.NextHop, result.BGPPathA.NextHop) && result.BGPPathA.Source != nil && spec_sameIP(pb.Source, result.BGPPathA.Source)
+//@   ensures result.ASPath != nil && len(*result.ASPath) == len(pb.AsPath) && forall(k, 0, len(pb.AsPath), ((*result.ASPath)[k].Type == types.ASSequence || (*result.ASPath)[k].Type == types.ASSet) && spec_sameSeg(pb.AsPath[k], (*result.ASPath)[k]))
+//@   ensures len(pb.Communities) > 0 ==> result.Communities != nil && verif_sameelems(*result.Communities, pb.Communities)
+//@   ensures len(pb.Communities) == 0 ==> result.Communities == nil
+//@   ensures len(pb.ClusterList) > 0 ==> result.ClusterList != nil && verif_sameelems(*result.ClusterList, pb.ClusterList)
+//@   ensures len(pb.ClusterList) == 0 ==> result.ClusterList == nil
+//@   ensures len(pb.LargeCommunities) > 0 ==> result.LargeCommunities != nil && len(*result.LargeCommunities) == len(pb.LargeCommunities) && forall(k, 0, len(pb.LargeCommunities), spec_sameLC(pb.LargeCommunities[k], (*result.LargeCommunities)[k]))
+//@   ensures len(pb.LargeCommunities) == 0 ==> result.LargeCommunities == nil
+//@   ensures len(result.UnknownAttributes) == len(pb.UnknownAttributes) && forall(k, 0, len(pb.UnknownAttributes), spec_sameUA(pb.UnknownAttributes[k], result.UnknownAttributes[k]))
+//@   ensures spec_bgpFrom(pb, result) && verif_fresh(result)
+//@   modifies nothing
+//@   loop 0 vars p *BGPPath, rangeindex int
+//@   loop 0 invariant p != nil && verif_fresh(p) && p.LargeCommunities != nil && verif_fresh(p.LargeCommunities) && len(*p.LargeCommunities) == len(pb.LargeCommunities) && verif_freshslice(*p.LargeCommunities)
+//@   loop 0 invariant forall(k, 0, rangeindex+1, spec_sameLC(pb.LargeCommunities[k], (*p.LargeCommunities)[k]))
+//@   loop 1 vars p *BGPPath, rangeindex int
+//@   loop 1 invariant p != nil && verif_fresh(p) && len(p.UnknownAttributes) == len(pb.UnknownAttributes) && verif_freshslice(p.UnknownAttributes)
+//@   loop 1 invariant forall(k, 0, rangeindex+1, spec_sameUA(pb.UnknownAttributes[k], p.UnknownAttributes[k]))
+
+// Type, learn time and both path kinds; a path with a hidden reason is never
+// reported with "none".
+//@ contract (*Path).ToProto
+//@   props C34
+//@   requires p != nil && (p.StaticPath != nil ==> p.StaticPath.NextHop != nil)
+//@   ensures result != nil && verif_fresh(result) && result.TimeLearned == p.LTime
+//@   ensures (p.Type == BGPPathType ==> result.Type == api.Path_BGP) && (p.Type == StaticPathType ==> result.Type == api.Path_Static)
+//@   ensures p.HiddenReason <= HiddenReasonOTCMismatch ==> int32(result.HiddenReason) == int32(p.HiddenReason)
+//@   ensures p.HiddenReason > HiddenReasonOTCMismatch ==> result.HiddenReason != api.Path_HiddenReasonNone
+//@   ensures (p.BGPPath == nil) == (result.BgpPath == nil) && (p.StaticPath == nil) == (result.StaticPath == nil)
+//@   ensures spec_pathConv(result, p)
+//@   modifies nothing
+
+// Every path of the route, in order, under the route's prefix.
+//@ contract (*Route).ToProto
+//@   props C34
+//@   requires r != nil && r.pfx != nil && forall(k, 0, len(r.paths), r.paths[k] != nil && (r.paths[k].StaticPath == nil || r.paths[k].StaticPath.NextHop != nil))
+//@   ensures result != nil && result.Pfx != nil && result.Pfx.Length == uint32(r.pfx.Len()) && spec_sameIP(result.Pfx.Address, r.pfx.Addr().Ptr())
+//@   ensures len(result.Paths) == len(r.paths) && forall(k, 0, len(r.paths), spec_pathConv(result.Paths[k], r.paths[k]))
+//@   modifies nothing
+//@   loop 0 vars a *api.Route, rangeindex int
+//@   loop 0 invariant a != nil && verif_fresh(a) && len(a.Paths) == len(r.paths) && verif_freshslice(a.Paths)
+//@   loop 0 invariant forall(k, 0, rangeindex+1, spec_pathConv(a.Paths[k], r.paths[k]))
+
+// Every path of the API route, in order, under its prefix.
+//@ contract RouteFromProtoRoute
+//@   props C34
+//@   requires ar != nil && ar.Pfx != nil && ar.Pfx.Address != nil && forall(k, 0, len(ar.Paths), spec_okAPIPath(ar.Paths[k]))
+//@   ensures result != nil && result.pfx != nil && uint32(result.pfx.Len()) == ar.Pfx.Length&255 && spec_sameIP(ar.Pfx.Address, result.pfx.Addr().Ptr())
+//@   ensures len(result.paths) == len(ar.Paths) && forall(k, 0, len(ar.Paths), spec_pathFrom(ar.Paths[k], result.paths[k]))
+//@   modifies nothing
+//@   loop 0 vars r *Route, rangeindex int
+//@   loop 0 invariant r != nil && verif_fresh(r) && len(r.paths) == rangeindex+1 && verif_freshslice(r.paths) && r.pfx != nil && uint32(r.pfx.Len()) == ar.Pfx.Length&255 && spec_sameIP(ar.Pfx.Address, r.pfx.Addr().Ptr())
+//@   loop 0 invariant forall(k, 0, rangeindex+1, spec_pathFrom(ar.Paths[k], r.paths[k]))
